@@ -114,8 +114,8 @@ class ProgressBar(BaseProgressBar):
             if self.__change_objective_sign:
                 obj = -obj
 
-            if isinstance(obj, ndarray) and len(obj) == 1:
-                obj = obj[0]
+            if isinstance(obj, ndarray) and (obj.ndim == 0 or len(obj) == 1):
+                obj = obj[()] if obj.ndim == 0 else obj[0]
 
         if self.__is_current_iteration_logged:
             kwargs = {"obj": obj} if self.__is_optimization_problem else {}
